@@ -393,20 +393,25 @@ Definition attr_of (a : act) : option (recv * name) :=
 (* ---------------------------------------------------------------------------------------------- *)
 (* object_oriented.remove_unused_self_cls (after the repairs: magic methods, methods looked up on a
    class or read by the class body are left alone) *)
-Definition non_instance (k : cls) : list name :=
-  flat_map (fun x => match m_kind x with KStatic | KClassm => [m_name x] | _ => [] end) (c_meths k).
+Definition noninst (x : meth) : bool := match m_kind x with KStatic | KClassm => true | _ => false end.
+(* names that some class of the module defines as an instance method (or property) *)
+Definition inst_names (M : module) : list name :=
+  flat_map (fun k => flat_map (fun x => if noninst x then [] else [m_name x]) (c_meths k)) (classes M).
+(* the static / class methods of k whose name is nowhere the name of an instance method *)
+Definition non_instance (I : list name) (k : cls) : list name :=
+  flat_map (fun x => if noninst x && negb (nmem (m_name x) I) then [m_name x] else []) (c_meths k).
 Definition has_super (b : list act) : bool :=
   existsb (fun a => match a with
                     | ACall RSuper _ _ | ARead RSuper _ | ADyn RSuper _ _ => true
                     | _ => false end) b.
-Definition inst_access (k : cls) (b : list act) : bool :=
+Definition inst_access (I : list name) (k : cls) (b : list act) : bool :=
   existsb (fun a => match a with
                     | AUse => true
                     | ADyn RSelf _ _ | ARead RSelf _ => true
-                    | ACall RSelf m _ => negb (nmem m (non_instance k))
+                    | ACall RSelf m _ => negb (nmem m (non_instance I k))
                     | _ => false end) b.
-Definition static_access (k : cls) (b : list act) : bool :=
-  existsb (fun a => match a with ACall RSelf m _ => nmem m (non_instance k) | _ => false end) b.
+Definition static_access (I : list name) (k : cls) (b : list act) : bool :=
+  existsb (fun a => match a with ACall RSelf m _ => nmem m (non_instance I k) | _ => false end) b.
 (* attributes looked up on a Name that is a class of the module, on `cls`, or on super() *)
 Definition looked_of (cn : list name) (in_classm : bool) (a : act) : list name :=
   match attr_of a with
@@ -423,27 +428,27 @@ Definition looked_up_on_class (M : module) : list name :=
      | IFunc g => flat_map (looked_of cn false) (f_body g)
      end) (m_items M)
   ++ flat_map (looked_of cn false) (m_main M).
-Definition rs_meth (looked : list name) (k : cls) (x : meth) : meth :=
+Definition rs_meth (looked I : list name) (k : cls) (x : meth) : meth :=
   if Nat.eqb (m_params x) 0 then x
   else if is_magic (m_name x) then x
   else if nmem (m_name x) (map snd (c_alias k)) then x
-  else if nmem (m_name x) looked && negb (nmem (m_name x) (non_instance k)) then x
+  else if nmem (m_name x) looked && negb (nmem (m_name x) (non_instance I k)) then x
   else if has_super (m_body x) then x
   else match m_kind x with
        | KProp | KStatic => x
        | kd =>
-           if inst_access k (m_body x) then x
-           else if static_access k (m_body x)
+           if inst_access I k (m_body x) then x
+           else if static_access I k (m_body x)
                 then match kd with KClassm => x | _ => mkMeth (m_name x) KClassm (m_params x) (m_body x) end
                 else mkMeth (m_name x) KStatic (pred (m_params x)) (m_body x)
        end.
-Definition rs_item (looked : list name) (it : item) : item :=
+Definition rs_item (looked I : list name) (it : item) : item :=
   match it with
-  | IClass k => IClass (mkCls (c_name k) (c_base k) (map (rs_meth looked k) (c_meths k)) (c_alias k))
+  | IClass k => IClass (mkCls (c_name k) (c_base k) (map (rs_meth looked I k) (c_meths k)) (c_alias k))
   | _ => it
   end.
 Definition rs_pass (M : module) : module :=
-  mkMod (map (rs_item (looked_up_on_class M)) (m_items M)) (m_vars M) (m_stores M) (m_main M).
+  mkMod (map (rs_item (looked_up_on_class M) (inst_names M)) (m_items M)) (m_vars M) (m_stores M) (m_main M).
 Definition rs_model (M : module) : module := iter_n 5 rs_pass M.
 
 (* ---------------------------------------------------------------------------------------------- *)
@@ -761,3 +766,10 @@ Definition bind_eqb (p q : name * vexpr) : bool := Nat.eqb (fst p) (fst q) && ve
 Definition u_case_ok (c : uprog * list (name * vexpr) * list (name * vexpr)) : bool :=
   let '(p, body', post') := c in
   list_eqb bind_eqb (u_body (fu_model p)) body' && list_eqb bind_eqb (u_post (fu_model p)) post'.
+
+(* ---- well-formedness guard used by the theorems of Part O (boolean, evaluated on examples):
+        no class-body alias `a = m` has the name of a method of some class of the module ---- *)
+Definition all_meth_names (M : module) : list name :=
+  flat_map (fun k => map m_name (c_meths k)) (classes M).
+Definition wf_mod (M : module) : bool :=
+  forallb (fun k => forallb (fun a => negb (nmem (fst a) (all_meth_names M))) (c_alias k)) (classes M).
